@@ -41,7 +41,7 @@ namespace Pyr.Introspect
 /-- category expressions of directive families the chapter does not list (source text of the first argument of
 `self.introspectable`) -/
 def undocumentedCategories : List String :=
-  ["'%s predicates' % type", "'view derivers'", "'request extensions'", "'execution policy'", "'response factory'",
+  ["'view predicates'", "'route predicates'", "'subscriber predicates'", "'view derivers'", "'request extensions'", "'execution policy'", "'response factory'",
    "'csrf storage policy'", "'cache busters'", "'accept view order'"]
 
 def specDirectives : List SDirective := [
